@@ -21,10 +21,13 @@ func vNTTL() int { return 3 + verif.Tier() }
 // TO0.OwnerSign against the real rendezvous responder: a redirect is stored only
 // for a verified chain, matching to0d hash, the session's nonce and a blob signed
 // by the voucher's current owner; expiry and reply carry the accepted TTL.
-func VerifC06_AcceptOwnerSpec_P256() { verif.SetGhost("fix-mfgkind", vcP256); vAcceptOwnerSpec() }
-func VerifC06_AcceptOwnerSpec_P384() { verif.SetGhost("fix-mfgkind", vcP384); vAcceptOwnerSpec() }
+func VerifC06_AcceptOwnerSpec_P256() { verif.SetGhost("fix-mfgkind", vcP256); vAcceptOwnerSpec(false) }
+func VerifC06_AcceptOwnerSpec_P384() { verif.SetGhost("fix-mfgkind", vcP384); vAcceptOwnerSpec(false) }
 
-func vAcceptOwnerSpec() {
+// C10: the same message grammar must never crash the rendezvous responder
+func VerifC10_TO0OwnerSign() { verif.SetGhost("fix-mfgkind", vcP256); vAcceptOwnerSpec(true) }
+
+func vAcceptOwnerSpec(nopanic bool) {
 	verif.Expect("stored")
 	verif.Expect("rejected")
 	verif.Bound("C06", "voucher: P-256/P-384 manufacturer key, 0..1 (quick) / 0..2 (thorough) entries with symbolic hashes, keys and signatures (algorithm ids honest; the id space is C04's); to0d nonce and session nonce symbolic, session nonce present/absent; to1d: hash alg in {SHA-256, SHA-384, 0}, value symbolic, 1 address, protected alg in {ES256, ES384, unregistered}, signature symbolic of the owner key's length, payload present/null; requested TTL in {0,3600,2^32-1} (+1 thorough); policy callback absent / returns one of those TTLs or an error; frozen symbolic clock")
@@ -85,7 +88,7 @@ func vAcceptOwnerSpec() {
 
 	var rt uint8
 	var resp any
-	panicked, _ := verif.Caught(func() { rt, resp = srv.Respond(context.Background(), protocol.TO0OwnerSignMsgType, bytes.NewReader(wire)) })
+	panicked := vRun(nopanic, func() { rt, resp = srv.Respond(context.Background(), protocol.TO0OwnerSignMsgType, bytes.NewReader(wire)) })
 	if panicked {
 		verif.Assert(st.setRVBlobCalls == 0, "a crashing request stores nothing")
 		verif.Reached("panicked")
